@@ -412,5 +412,73 @@ theorem Rep.run {r : Ring α} {q : List α} (h : Rep r q) (ops : List (Op σ α)
     obtain ⟨h3, h4⟩ := ih h2
     exact ⟨by simp only [runRing, runList, h1, h3], h4⟩
 
+/-! ### bounds safety, sanity of `mapUntil` -/
+
+/-- Every index expression and slice expression the Go methods evaluate on a ring in state `r`
+is inside the slice (so none of them panics; `copy`, `clear` and `make` with a non-negative size
+cannot).  One conjunct per site of ringbuffer.go; the model evaluates the same expressions with
+clamping `List` operations, so this is the statement that the clamping never takes effect. -/
+structure AccessesInRange (r : Ring α) : Prop where
+  /-- `IsFull`, `Push`, `Pop`: `% len(r.elements)` -/
+  mod_nonzero : 0 < r.size
+  /-- `Push`: `r.elements[r.tail] = v` after the optional `grow` -/
+  push_slot : (if r.isFull then r.grow else r).tail < (if r.isFull then r.grow else r).size
+  /-- `Pop`, `Peek` (reached only if `Len() != 0`): `r.elements[r.head]` -/
+  head_slot : r.len ≠ 0 → r.head < r.size
+  /-- `Discard`, no-wrap branch: `r.elements[r.head:end]` with `end = head + n < cap` -/
+  discard_nowrap : ∀ n, min n r.len ≠ r.len → r.head + min n r.len < r.size →
+    r.head ≤ r.head + min n r.len ∧ r.head + min n r.len ≤ r.size
+  /-- `Discard`, wrap branch: `r.elements[r.head:cap]` and `r.elements[:end-cap]` -/
+  discard_wrap : ∀ n, min n r.len ≠ r.len → ¬ r.head + min n r.len < r.size →
+    r.head ≤ r.size ∧ r.head + min n r.len - r.size ≤ r.size
+  /-- `ForEach`: every `&r.elements[i]` -/
+  forEach_slots : ∀ i ∈ r.fwdIdx, i < r.size
+  /-- `ForEachReverse`: every `&r.elements[i]` -/
+  forEachReverse_slots : ∀ i ∈ r.revIdx, i < r.size
+  /-- `Clear`: `r.elements[i]` for `head ≤ i < tail`, resp. `head ≤ i < len` and `i < tail` -/
+  clear_slots : (r.head ≤ r.tail → r.tail ≤ r.size) ∧ (¬ r.head ≤ r.tail → r.tail ≤ r.size)
+  /-- `grow`: `r.elements[r.head:r.tail]`, `r.elements[r.head:]`, `r.elements[:r.tail]`,
+  `newElements[n:]` with `n` the count returned by the first `copy` -/
+  grow_slices : (r.head < r.tail → r.tail ≤ r.size) ∧ r.head ≤ r.size ∧ r.tail ≤ r.size ∧
+    min (r.size - r.head) (growSize r.size) ≤ growSize r.size
+
+theorem Rep.accessesInRange {r : Ring α} {q : List α} (h : Rep r q) : AccessesInRange r := by
+  have h1 := h.size_ge
+  have h2 := h.head_lt
+  have h3 := h.tail_lt
+  have hl := len_spec r
+  have hidx : ∀ i ∈ r.fwdIdx, i < r.size := by
+    intro i hi
+    rw [fwdIdx_eq h2 h3] at hi
+    obtain ⟨k, hk, rfl⟩ := List.mem_map.1 hi
+    exact (live_idx h2 h3 (List.mem_range.1 hk)).1
+  refine ⟨by omega, ?_, fun _ => h2, ?_, ?_, hidx, ?_, by omega, by omega⟩
+  · split
+    · have hg := h.grow
+      exact hg.tail_lt
+    · exact h3
+  · intro n _ _; omega
+  · intro n _ _; omega
+  · intro i hi
+    rw [revIdx_eq, List.mem_reverse] at hi
+    exact hidx i hi
+
+theorem mapUntil_length (g : σ → α → σ × α × Bool) (s : σ) (q : List α) :
+    (mapUntil g s q).2.length = q.length := by
+  induction q generalizing s with
+  | nil => rfl
+  | cons a q ih =>
+    simp only [mapUntil]
+    split
+    · simp [ih]
+    · simp
+
+
+theorem mapUntil_map (h : α → α) (s : σ) (q : List α) :
+    mapUntil (fun s a => (s, h a, true)) s q = (s, q.map h) := by
+  induction q with
+  | nil => rfl
+  | cons a q ih => simp [mapUntil, ih]
+
 end Ring
 end KcpVerif
